@@ -9,6 +9,8 @@ mod c05;
 mod c06;
 mod c07;
 mod c08;
+mod c09;
+mod c10;
 mod c12;
 mod c13;
 mod c14;
@@ -21,6 +23,7 @@ mod c20;
 mod dbg;
 mod dump;
 mod progs;
+mod stark_dsl;
 mod util;
 
 use std::path::PathBuf;
@@ -60,6 +63,8 @@ fn main() {
         "c05" => c05::emit(&mut e, seed, thorough),
         "c12" => c12::emit(&mut e, seed, thorough),
         "c20" => c20::emit(&mut e, seed, thorough),
+        "c09" => c09::emit(&mut e, seed, thorough),
+        "c10" => c10::emit(&mut e, seed, thorough),
         "c19" => c19::emit(&mut e, seed, thorough),
         "c18" => c18::emit(&mut e, seed, thorough),
         "c17" => c17::emit(&mut e, seed, thorough),
